@@ -20,7 +20,7 @@ func init() {
 		Level: "other",
 		Explanation: "Decided (structural necessary conditions of 'one meaning for both parsers'): (R6.1) the white-space, delimiter, hex/octal/decimal digit classes and hex values of the document lexer and the content-stream parser are exactly the ISO 32000 tables and equal each other (exact 256-entry denotations); (R6.2) both literal-string readers map the same escape letters to the same bytes, treat \\CR, \\LF as continuation and continue an octal escape only on octal digits, at most three digits; (R6.3) every content-stream operator of ISO 32000 and every operator the extractors handle can be tokenised as an operator (first byte in the operator-start set, all bytes in the operator-continue set) and true/false/null are operands; keyword operands end at white space or a delimiter; (R6.4) both parsers end a comment at CR or LF; (R6.5) the reference lookahead 'int int R' does not consume plain integers. " +
 			"Not decided: round-trip equality of arbitrary trees, number edge cases, name # escapes beyond the character classes.",
-		Rules: []func(*eng.Ctx){ruleObjectSpellingsEvaluated, ruleKeywordOperandsInContainers, ruleHexStringCloserConsumed, ruleTokenTextNeedsType, ruleDictKeysAreReadNames, ruleCharClasses, ruleEscapes, ruleOperatorAlphabet, ruleComments, ruleRefLookahead, ruleDictKeepsAll, roleRule("R6.R", "core", "contentstream"), ruleRealsViaParseFloat, ruleParserDepthBalance, ruleTokenValueOwned, ruleBytesNotRunes, rulePDFWhitespaceOnly, ruleCursorReadsGuarded},
+		Rules: []func(*eng.Ctx){ruleTruncatedContentEvaluated, ruleObjectSpellingsEvaluated, ruleKeywordOperandsInContainers, ruleHexStringCloserConsumed, ruleTokenTextNeedsType, ruleDictKeysAreReadNames, ruleCharClasses, ruleEscapes, ruleOperatorAlphabet, ruleComments, ruleRefLookahead, ruleDictKeepsAll, roleRule("R6.R", "core", "contentstream"), ruleRealsViaParseFloat, ruleParserDepthBalance, ruleTokenValueOwned, ruleBytesNotRunes, rulePDFWhitespaceOnly, ruleCursorReadsGuarded},
 	})
 }
 
